@@ -484,7 +484,7 @@ func run(e *Env) error {
 	base := *configs.Minimal
 	keys := makeKeys(&base)
 
-	nSched := e.N(70, 700)
+	nSched := e.N(70, 260)
 	kinds := []string{"staggered", "equal_adjacent", "equal_adjacent", "all_equal", "some_never", "wrapping", "big", "unsorted", "dup_version"}
 	var scheds []*sched
 	// the two built-in configurations first (lookups only for mainnet: its epochs are out of reach for ProcessSlots)
